@@ -117,6 +117,8 @@ def run(ctx):
     out = SP.run_streams(ctx, MASK, monitor, 'priority-contract', [
         ('G-sim-priority', 200, 3000, dict(algo='priority')),
         ('G-sim-saturate-priority', 60, 1000, dict(saturate='priority')),
+        ('G-sim-priority-siblings', 60, 1000, dict(abandon='priority')),
+        ('G-sim-priority-branches', 60, 1000, dict(branches='priority')),
         ('G-sim-ppool', 80, 1500, dict(algo='priority-pool')),
         ('G-sim-saturate-ppool', 60, 1000, dict(saturate='priority-pool')),
     ])
